@@ -167,25 +167,36 @@ theorem chunk_flatten (c : Nat) : ∀ (r : Nat) (d : List α), d.length = r * c 
 
 /-! ### `import_sparse_array` and the constructor check -/
 
-theorem readEntries_entryLines (fmt : α → τ) (parse : τ → α) (ofInt : Int → α) (hp : ∀ v, parse (fmt v) = v)
-    (b : Int) (n : Nat) (rest : File τ) :
+/-- Entry lines written with offset `b'` and read with offset `b`: every subscript comes back
+shifted by `b' - b`; values and the order of the entries are kept. -/
+theorem readEntries_shift (fmt : α → τ) (parse : τ → α) (ofInt : Int → α) (hp : ∀ v, parse (fmt v) = v)
+    (b b' : Int) (n : Nat) (rest : File τ) :
     ∀ (subs : List (List Int)) (vals : List α), subs.length = vals.length → (∀ s ∈ subs, s.length = n) →
-      readEntries parse ofInt b n subs.length (List.zipWith (entryLine fmt b) subs vals ++ rest) = .ok (subs, vals)
+      readEntries parse ofInt b n subs.length (List.zipWith (entryLine fmt b') subs vals ++ rest) =
+        .ok (subs.map (fun s => s.map fun i => i + b' - b), vals)
   | [], [], _, _ => rfl
   | [], _ :: _, h, _ => by simp at h
   | _ :: _, [], h, _ => by simp at h
   | s :: subs, v :: vals, h, hs => by
     have hlen : subs.length = vals.length := by simpa using h
-    have ih := readEntries_entryLines fmt parse ofInt hp b n rest subs vals hlen
+    have ih := readEntries_shift fmt parse ofInt hp b b' n rest subs vals hlen
       (fun s' hs' => hs s' (List.mem_cons_of_mem _ hs'))
     have hsn : s.length = n := hs s (List.mem_cons_self ..)
-    have hints := lineInts_map_int (τ := τ) s (fun i => i + b)
-    have hback : List.map ((fun i => i - b) ∘ fun i => i + b) s = s := by
-      have : ((fun i => i - b) ∘ fun i => i + b) = id := by
-        funext i; simp [Int.add_sub_cancel]
-      rw [this]; simp
-    simp [readEntries, readline, entryLine, List.zipWith, hints, assignRow, hsn, hback,
+    have hints := lineInts_map_int (τ := τ) s (fun i => i + b')
+    simp [readEntries, readline, entryLine, List.zipWith, hints, assignRow, hsn, Function.comp_def,
       tokVal_tokV fmt parse ofInt hp, ih]
+
+theorem readEntries_entryLines (fmt : α → τ) (parse : τ → α) (ofInt : Int → α) (hp : ∀ v, parse (fmt v) = v)
+    (b : Int) (n : Nat) (rest : File τ) (subs : List (List Int)) (vals : List α)
+    (hlen : subs.length = vals.length) (hs : ∀ s ∈ subs, s.length = n) :
+    readEntries parse ofInt b n subs.length (List.zipWith (entryLine fmt b) subs vals ++ rest) = .ok (subs, vals) := by
+  have h := readEntries_shift fmt parse ofInt hp b b n rest subs vals hlen hs
+  have hid : (fun (s : List Int) => s.map fun i => i + b - b) = id := by
+    funext s
+    have : (fun (i : Int) => i + b - b) = id := by funext i; simp [Int.add_sub_cancel]
+    rw [this]; simp
+  rw [hid] at h
+  simpa using h
 
 theorem fits_of_below : ∀ (s : List Int) (shape : List Nat), Below s shape → fits shape s = true
   | [], [], _ => by simp [fits]
@@ -193,10 +204,11 @@ theorem fits_of_below : ∀ (s : List Int) (shape : List Nat), Below s shape →
   | _ :: _, [], h => by simp [Below] at h
   | i :: is, d :: ds, h => by
     have ih := fits_of_below is ds h.2
-    have h1 : i + 1 ≤ (d : Int) := by have := h.1; omega
+    have h0 : 0 ≤ i := h.1.1
+    have h1 : i + 1 ≤ (d : Int) := by have := h.1.2; omega
     simp only [fits, List.length_cons, List.zipWith_cons_cons, List.all_cons, Bool.and_eq_true, beq_iff_eq,
       decide_eq_true_eq, id] at ih ⊢
-    exact ⟨by omega, h1, ih.2⟩
+    exact ⟨by omega, ⟨h0, h1⟩, ih.2⟩
 
 theorem below_of_fits : ∀ (s : List Int) (shape : List Nat), fits shape s = true → Below s shape
   | [], [], _ => trivial
@@ -205,9 +217,18 @@ theorem below_of_fits : ∀ (s : List Int) (shape : List Nat), fits shape s = tr
   | i :: is, d :: ds, h => by
     simp only [fits, List.length_cons, List.zipWith_cons_cons, List.all_cons, Bool.and_eq_true, beq_iff_eq,
       decide_eq_true_eq, id] at h
-    refine ⟨by omega, below_of_fits is ds ?_⟩
+    refine ⟨⟨h.2.1.1, by have := h.2.1.2; omega⟩, below_of_fits is ds ?_⟩
     simp only [fits, Bool.and_eq_true, beq_iff_eq]
     exact ⟨by omega, h.2.2⟩
+
+theorem nonneg_of_below : ∀ (s : List Int) (shape : List Nat), Below s shape → ∀ i ∈ s, 0 ≤ i
+  | [], _, _ => by simp
+  | _ :: _, [], h => by simp [Below] at h
+  | i :: is, d :: ds, h => by
+    intro j hj
+    rcases List.mem_cons.mp hj with rfl | hj
+    · exact h.1.1
+    · exact nonneg_of_below is ds h.2 j hj
 
 /-! ### the factor blocks of a ktensor file -/
 
@@ -220,7 +241,7 @@ theorem skipWs_factorBlocks (fmt : α → τ) (fs : List (NdC α)) :
 theorem readFactors_factorBlocks (fmt : α → τ) (parse : τ → α) (ofInt : Int → α) (hp : ∀ v, parse (fmt v) = v)
     (R : Nat) (hR : 0 < R) :
     ∀ (fs : List (NdC α)), (∀ F ∈ fs, FactorWF R F) →
-      readFactors parse ofInt fs.length (fs.flatMap (factorLines fmt)) = .ok fs
+      readFactors parse ofInt (R : Int) (fs.map fun F => F.shape.headD 0) (fs.flatMap (factorLines fmt)) = .ok fs
   | [], _ => rfl
   | F :: fs, h => by
     have ih := readFactors_factorBlocks fmt parse ofInt hp R hR fs (fun F' hF' => h F' (List.mem_cons_of_mem _ hF'))
@@ -245,11 +266,12 @@ theorem readFactors_factorBlocks (fmt : α → τ) (parse : τ → α) (ofInt : 
     rw [hfl] at hb
     have hsz := importShape_sizeLines (τ := τ) [r, R] (by simp)
       ((chunk R r data).map (fun l => l.map (tokV fmt)) ++ fs.flatMap (factorLines fmt))
-    simp only [List.length_cons, List.flatMap_cons, readFactors, factorLines, readline, List.cons_append,
+    simp only [List.map_cons, List.flatMap_cons, readFactors, factorLines, readline, List.cons_append,
       List.append_assoc, List.tail_cons, List.headD_cons, rowsOf]
     have hn1 : numel [R] = R := by simp [numel]
     rw [hn1, hsz]
-    simp only [hnum, hb, ih, if_true]
+    simp only [hnum, hb, ih, if_true, List.map_cons, List.map_nil]
+    exact if_pos rfl
 
 theorem ktensorOk_of_wf (w : List α) (fs : List (NdC α)) (hne : fs ≠ [])
     (h : ∀ F ∈ fs, FactorWF w.length F) : ktensorOk w fs = true := by
@@ -331,9 +353,45 @@ theorem roundtrip_ktensor (b : Int) (w : List α) (fs : List (NdC α)) (h : (Obj
   have hok := ktensorOk_of_wf w fs hne hF
   simp only [decode, encodeBase, readline, decodeKtensor, List.append_assoc, List.cons_append, List.nil_append]
   rw [hsz]
-  simp [firstInt, tokInt, hw, hrf, hok]
+  have hneg : ¬ ((w.length : Int) < 0) := by omega
+  simp only [firstInt, tokInt, Int.toNat_natCast, hw, hrf, hok, hneg, if_true, if_false]
+  simp
 
 end
+
+/-! ### a sparse file read with another base than it was written with -/
+
+theorem decode_sparse_shift (fmt : α → τ) (parse : τ → α) (ofInt : Int → α) (hp : ∀ v, parse (fmt v) = v)
+    (b b' : Int) (shape : List Nat) (subs : List (List Int)) (vals : List α)
+    (hs : shape ≠ []) (hlen : subs.length = vals.length) (hrow : ∀ s ∈ subs, s.length = shape.length) :
+    decode parse ofInt b (encodeBase fmt b' (.sparse shape subs vals)) =
+      if (subs.map fun s => s.map fun i => i + b' - b).all (fits shape) then
+        .ok (.sparse shape (subs.map fun s => s.map fun i => i + b' - b) vals)
+      else .error .reject := by
+  have hre := readEntries_shift fmt parse ofInt hp b b' shape.length [] subs vals hlen hrow
+  simp only [List.append_nil] at hre
+  have hsz := importShape_sizeLines (τ := τ) shape hs
+    ([Token.int (subs.length : Int)] :: List.zipWith (entryLine fmt b') subs vals)
+  have hneg : ¬ ((subs.length : Int) < 0) := by omega
+  simp only [decode, encodeBase, readline, decodeSparse, List.append_assoc, List.cons_append, List.nil_append]
+  rw [hsz]
+  simp only [readline, firstInt, tokInt, Int.toNat_natCast, hre, hneg, if_false]
+  simp
+
+theorem decode_sparse_negative_rejected (fmt : α → τ) (parse : τ → α) (ofInt : Int → α) (hp : ∀ v, parse (fmt v) = v)
+    (b b' : Int) (shape : List Nat) (subs : List (List Int)) (vals : List α)
+    (hs : shape ≠ []) (hlen : subs.length = vals.length) (hrow : ∀ s ∈ subs, s.length = shape.length)
+    (hneg : ∃ s ∈ subs, ∃ i ∈ s, i + b' < b) :
+    decode parse ofInt b (encodeBase fmt b' (.sparse shape subs vals)) = .error .reject := by
+  rw [decode_sparse_shift fmt parse ofInt hp b b' shape subs vals hs hlen hrow]
+  have hall : ¬ ((subs.map fun s => s.map fun i => i + b' - b).all (fits shape) = true) := by
+    intro hall
+    obtain ⟨s, hsm, i, hi, hlt⟩ := hneg
+    simp only [List.all_eq_true, List.mem_map, forall_exists_index, and_imp, forall_apply_eq_imp_iff₂] at hall
+    have hb := below_of_fits _ shape (hall s hsm)
+    have := nonneg_of_below _ shape hb (i + b' - b) (List.mem_map.mpr ⟨i, hi, rfl⟩)
+    omega
+  simp [hall]
 
 /-! ### the executable precondition -/
 
